@@ -133,7 +133,101 @@ func checkC26(c *Ctx) (string, []string) {
 			}
 		})
 		if restoreCall == nil {
-			c.Bad("C26.restore-on-fork", fuzzPkg+".ImportBlock · restore", imp.Pos(), "ImportBlock never restores the parent's state")
+			// the fork handling may live in a helper of the package: the helper must restore before it reports success, and ImportBlock must go on only on that success
+			ho := robustOpts
+			ho.inline = func(g *ssa.Function) bool {
+				return g != nil && g != imp && len(g.Blocks) > 0 && g.Pkg != nil && g.Pkg == imp.Pkg && !token.IsExported(g.Name())
+			}
+			var hf *ssa.Function
+			var hsubst map[ssa.Value]string
+			visitWithHelpers(imp, ho, func(g *ssa.Function, subst map[ssa.Value]string, in ssa.Instruction) {
+				if cl, ok := in.(*ssa.Call); ok && calleeFunc(cl) == restore && g != imp {
+					restoreCall, hf, hsubst = cl, g, subst
+				}
+			})
+			if restoreCall == nil {
+				c.Bad("C26.restore-on-fork", fuzzPkg+".ImportBlock · restore", imp.Pos(), "ImportBlock never restores the parent's state")
+			} else {
+				arg := abbr(exprStrSubst(restoreCall.Call.Args[1], robustOpts, hsubst))
+				c.Check(arg == "p1.Header.Parent" || arg == "cell(p1).Header.Parent", "C26.restore-on-fork", fuzzPkg+".ImportBlock · restore argument", restoreCall.Pos(), "restores the state of the block's parent (in helper "+hf.Name()+")", "restores "+arg+" instead of the block's parent")
+				seenA, seenB := false, false
+				av := func(s string) (int64, bool) {
+					if strings.HasPrefix(s, "len(") && strings.Contains(s, "GetBlocks(") {
+						return 1, true
+					}
+					if len(s) > 2 && s[0] == '(' && (strings.Contains(s, " == ") || strings.Contains(s, " != ")) && !strings.HasSuffix(s, " nil)") && !strings.HasPrefix(s, "(nil ") && !strings.Contains(s, "RestoreBlockAndState(") {
+						neg := strings.Contains(s, " != ")
+						val := int64(0)
+						if neg {
+							val = 1
+						}
+						switch {
+						case strings.HasSuffix(s, ".Header.Parent)") || strings.Contains(s, ".Header.Parent == ") || strings.Contains(s, ".Header.Parent != "):
+							seenA = true
+							return val, true
+						case strings.Contains(s, "ComputeBlockHeaderHash("):
+							seenB = true
+							return val, true
+						}
+					}
+					return 0, false
+				}
+				ok, why := true, ""
+				// (1) inside the helper: with a head that is neither the parent nor the block, no successful return avoids the restore; a failed restore is reported
+				allInstrs(hf, func(in ssa.Instruction) {
+					if r, isR := in.(*ssa.Return); isR && !isErrorReturn(hf, r) {
+						if reachAvoiding(r, restoreCall, robustOpts, av) {
+							ok, why = false, "helper "+hf.Name()+" can report success on a parent mismatch without restoring the parent's state"
+						}
+					}
+				})
+				failR := condEdges(hf, func(v ssa.Value) (bool, bool) {
+					bo, isB := v.(*ssa.BinOp)
+					if !isB || bo.X != ssa.Value(restoreCall) {
+						return false, false
+					}
+					return true, bo.Op.String() == "!="
+				})
+				if len(failR) != 1 {
+					ok, why = false, "the restore result is not tested"
+				} else if _, leak := findPath(pathQuery{startEdges: failR, target: func(in ssa.Instruction) bool {
+					r, isR := in.(*ssa.Return)
+					return isR && !isErrorReturn(hf, r)
+				}}); leak {
+					ok, why = false, "helper "+hf.Name()+" reports success after the restore failed"
+				}
+				if ok && (!seenA || !seenB) {
+					ok, why = false, "the 'block extends the current head' / 'block is the current head' tests were not found in "+hf.Name()
+				}
+				// (2) in ImportBlock: AddBlock / RunSTF only behind the helper's success
+				if ok {
+					var hcall *ssa.Call
+					allInstrs(imp, func(in ssa.Instruction) {
+						if cl, isC := in.(*ssa.Call); isC && calleeFunc(cl) == hf {
+							hcall = cl
+						}
+					})
+					if hcall == nil {
+						ok, why = false, "ImportBlock does not call "+hf.Name()+" directly"
+					} else {
+						pass := condEdges(imp, func(v ssa.Value) (bool, bool) {
+							bo, isB := v.(*ssa.BinOp)
+							if !isB || (bo.X != ssa.Value(hcall)) {
+								return false, false
+							}
+							return true, bo.Op.String() == "=="
+						})
+						allInstrs(imp, func(in ssa.Instruction) {
+							if f := calleeFunc2(in); f == addBlock || f == runSTF {
+								if len(pass) == 0 || !guardedBy(imp, in, pass) {
+									ok, why = false, "ImportBlock adds the block / runs the STF without "+hf.Name()+" having succeeded"
+								}
+							}
+						})
+					}
+				}
+				c.Check(ok, "C26.restore-on-fork", fuzzPkg+".ImportBlock · restore before STF", restoreCall.Pos(), "parent mismatch ⇒ restore (in helper "+hf.Name()+"), and only its success leads to AddBlock/RunSTF", why)
+			}
 		} else {
 			arg := abbr(exprStr(restoreCall.Call.Args[1], shapeOpts))
 			c.Check(arg == "p1.Header.Parent", "C26.restore-on-fork", fuzzPkg+".ImportBlock · restore argument", restoreCall.Pos(), "restores the state of the block's parent", "restores "+arg+" instead of the block's parent")
